@@ -300,7 +300,14 @@ pub struct Execution {
 }
 
 /// Run the program under the given scheduler policy. `choose(ready)` returns a position in `ready`.
-fn execute(p: &Program, init: &Initial, choose: &mut dyn FnMut(&[usize]) -> usize) -> Result<Execution, Failure> {
+///
+/// `fair`: whenever a task blocks on the core's lock the scheduler sleeps 550 µs of wall-clock
+/// time. async_lock's mutex lets a new `lock()` barge in front of waiters until a waiter has
+/// been waiting for more than 500 µs; from then on acquisitions are handed over in FIFO order.
+/// Without the sleep an unlock immediately followed by a second `lock()` in the same poll can
+/// never be preempted on a single thread (on a multi-threaded executor it can); with it, every
+/// lock acquisition while another task waits becomes a real preemption point.
+fn execute(p: &Program, init: &Initial, choose: &mut dyn FnMut(&[usize]) -> usize, fair: bool) -> Result<Execution, Failure> {
     let disk = Disk::from_files(init.files.clone());
     let core = match hc::open(&disk) {
         Ok(Ok(c)) => c,
@@ -366,6 +373,9 @@ fn execute(p: &Program, init: &Initial, choose: &mut dyn FnMut(&[usize]) -> usiz
         let r = catch(|| fut.as_mut().poll(&mut cx)).map_err(|pn| panic_failure(&format!("polling task {t} at step {steps}"), &pn))?;
         if r.is_ready() {
             futs[t] = None;
+        } else if fair && !flags[t].0.load(Ordering::SeqCst) {
+            // blocked (on the lock): let its waiting time exceed the mutex's starvation threshold
+            std::thread::sleep(std::time::Duration::from_micros(550));
         }
         if steps > 100_000 {
             return Err(Failure::new("livelock", "more than 100000 scheduler steps".to_string()));
@@ -542,7 +552,7 @@ fn check_execution(p: &Program, init: &Initial, ex: &Execution, local: &mut Loca
 }
 
 /// One program under one seeded-random (or recorded) schedule.
-pub fn run_program(p: &Program, local: &mut Local) -> Check {
+pub fn run_program(p: &Program, fair: bool, local: &mut Local) -> Check {
     let init = build_initial(p)?;
     let mut k = 0usize;
     let sched = p.schedule.clone();
@@ -551,7 +561,10 @@ pub fn run_program(p: &Program, local: &mut Local) -> Check {
         k += 1;
         c % ready.len()
     };
-    let ex = execute(p, &init, &mut choose)?;
+    let ex = execute(p, &init, &mut choose, fair)?;
+    if fair {
+        local.class("fair_lock_schedules_run");
+    }
     check_execution(p, &init, &ex, local)
 }
 
@@ -570,7 +583,7 @@ pub fn run_all_schedules(p: &Program, local: &mut Local, cap: u64) -> Check {
             k += 1;
             c.min(ready.len() - 1)
         };
-        let ex = execute(p, &init, &mut choose)?;
+        let ex = execute(p, &init, &mut choose, false)?;
         n += 1;
         local.evals += 1;
         check_execution(p, &init, &ex, local).map_err(|f| Failure::new(f.kind, format!("schedule {:?}: {}", ex.choices.iter().map(|c| c.1).collect::<Vec<_>>(), f.detail)))?;
@@ -682,7 +695,8 @@ pub fn run(ctx: &Ctx) {
     let n = idx.len() as u64;
     indexed_stage(ctx, "all-schedules-small-programs", n, |i| progs[idx[i as usize]].clone(), |p, local| run_all_schedules(p, local, 20_000));
     ctx.extra("exhaustive_stage", json!({"small_programs_total": progs.len(), "explored_this_run": n, "all_schedules_per_program": true, "exhaustive": stride == 1}));
-    random_stage(ctx, "random-programs", ctx.tier.pick(6_000, 150_000), program_strategy, |p: &Program, local| run_program(p, local));
+    random_stage(ctx, "random-programs", ctx.tier.pick(6_000, 150_000), program_strategy, |p: &Program, local| run_program(p, false, local));
+    random_stage(ctx, "random-programs-fair-lock", ctx.tier.pick(3_000, 60_000), program_strategy, |p: &Program, local| run_program(p, true, local));
 }
 
 pub fn replay(case: &Value) -> Check {
@@ -691,6 +705,7 @@ pub fn replay(case: &Value) -> Check {
     if p.schedule.is_empty() {
         run_all_schedules(&p, &mut l, 20_000)
     } else {
-        run_program(&p, &mut l)
+        run_program(&p, false, &mut l)?;
+        run_program(&p, true, &mut l)
     }
 }
